@@ -430,6 +430,21 @@ func eq_Int_Uint(a int64, b uint64) bool {
 }
 
 
+// int vs float are compared exactly, without rounding int to float.
+func eq_Int_Float(a int64, b float64) bool {
+	if b == math.Trunc(b) && -0x1p63 <= b && b < 0x1p63 {
+		return a == int64(b)
+	}
+	return false
+}
+
+func eq_Uint_Float(a uint64, b float64) bool {
+	if b == math.Trunc(b) && 0 <= b && b < 0x1p64 {
+		return a == uint64(b)
+	}
+	return false
+}
+
 func eq_Int_BigInt(a int64, b *big.Int) bool {
 	if b.IsInt64() {
 		return a == b.Int64()
@@ -646,12 +661,10 @@ func eq_Map_Map(a reflect.Value, b reflect.Value) bool {
 // equality matrix. trivial elements
 
 func eq_Int_Int     (a int64, b int64)      bool { return a == b }
-func eq_Int_Float   (a int64, b float64)    bool { return float64(a) == b }
-func eq_Int_Complex (a int64, b complex128) bool { return complex(float64(a), 0) == b }
+func eq_Int_Complex (a int64, b complex128) bool { return imag(b) == 0 && eq_Int_Float(a, real(b)) }
 
 func eq_Uint_Uint    (a uint64, b uint64)     bool { return a == b }
-func eq_Uint_Float   (a uint64, b float64)    bool { return float64(a) == b }
-func eq_Uint_Complex (a uint64, b complex128) bool { return complex(float64(a), 0) == b }
+func eq_Uint_Complex (a uint64, b complex128) bool { return imag(b) == 0 && eq_Uint_Float(a, real(b)) }
 
 func eq_Float_Float    (a float64, b float64)     bool { return a == b }
 func eq_Float_Complex  (a float64, b complex128)  bool { return complex(a, 0) == b }
@@ -689,14 +702,15 @@ func hash(seed maphash.Seed, x any) uint64 {
 	}
 
 	hash_Float := func(f float64) {
-		// if float is in int range and is integer number - hash it as integer
-		i  := int64(f)
-		f_ := float64(i)
-		if f_ == f {
-			hash_Int(i)
+		switch isint := (f == math.Trunc(f)); {
+		// if float is in int/uint range and is integer number - hash it as integer
+		case isint && -0x1p63 <= f && f < 0x1p63:
+			hash_Int(int64(f))
+		case isint && 0x1p63 <= f && f < 0x1p64:
+			hash_Uint(uint64(f))
 
 		// else use raw float64 bytes representation for hashing
-		} else {
+		default:
 			hash_Uint(math.Float64bits(f))
 		}
 	}
